@@ -13,6 +13,7 @@ import (
 	"github.com/tetratelabs/wazero"
 	"github.com/tetratelabs/wazero/api"
 	"github.com/tetratelabs/wazero/experimental"
+	"github.com/tetratelabs/wazero/internal/leb128"
 	"github.com/tetratelabs/wazero/verifharness/common"
 	"github.com/tetratelabs/wazero/verifharness/guard"
 	"github.com/tetratelabs/wazero/verifharness/isoreplay"
@@ -21,7 +22,7 @@ import (
 
 type point struct {
 	CapFromMax  bool   `json:"capFromMax"`
-	Allocator   bool   `json:"allocator"`
+	Allocator   string `json:"allocator"` // none | guard | spare
 	NoDebug     bool   `json:"nodebug"`
 	Custom      bool   `json:"custom"`
 	Listeners   string `json:"listeners"`
@@ -68,7 +69,7 @@ func pname(p point) string {
 		}
 	}
 	add(p.CapFromMax, "capFromMax")
-	add(p.Allocator, "allocator")
+	add(p.Allocator != "none" && p.Allocator != "", "allocator="+p.Allocator)
 	add(p.NoDebug, "nodebug")
 	add(p.Custom, "custom")
 	add(p.CloseOnDone, "closeOnDone")
@@ -94,6 +95,12 @@ func runScenario(id int, raw json.RawMessage) common.Result {
 	memCache := wazero.NewCompilationCache()
 	defer memCache.Close(bg)
 	bin := ug.Build(isoreplay.Shape)
+	// debug information and custom sections the runtime may keep or drop: a .debug_info section that does not parse (a
+	// compiler bug upstream must not change whether the module compiles) and an arbitrary custom section
+	for _, cs := range [][2]string{{".debug_info", "\x01\x02not dwarf at all\xff\xff\xff\xff"}, {"producers", "\x00"}} {
+		payload := append(append(leb128.EncodeUint32(uint32(len(cs[0]))), cs[0]...), cs[1]...)
+		bin = append(bin, append(append([]byte{0}, leb128.EncodeUint32(uint32(len(payload)))...), payload...)...)
+	}
 	order := ""
 	for si, st := range sc.Steps {
 		p := st.Point
@@ -121,8 +128,11 @@ func runScenario(id int, raw json.RawMessage) common.Result {
 		case "nilfactory":
 			ctx = experimental.WithFunctionListenerFactory(ctx, nilFactory{})
 		}
-		if p.Allocator {
+		switch p.Allocator {
+		case "guard":
 			ctx = experimental.WithMemoryAllocator(ctx, guard.New())
+		case "spare":
+			ctx = experimental.WithMemoryAllocator(ctx, spareAlloc{})
 		}
 		rt := wazero.NewRuntimeWithConfig(ctx, cfg)
 		cm, err := rt.CompileModule(ctx, bin)
@@ -186,3 +196,38 @@ func Main(args []string) {
 	}
 	common.Flush()
 }
+
+// spareAlloc hands out slices of a pre-dirtied slab: the slice has spare capacity whose bytes are NOT zero; a range becomes
+// clean only when the runtime asks for it through Reallocate (as an allocator that commits / recycles pages lazily does).
+type spareAlloc struct{}
+
+type spareMem struct {
+	slab []byte
+	size uint64
+}
+
+func (spareAlloc) Allocate(cap, max uint64) experimental.LinearMemory {
+	if max > 64<<20 {
+		max = 64 << 20
+	}
+	slab := make([]byte, max)
+	for i := range slab {
+		slab[i] = 0xAA
+	}
+	return &spareMem{slab: slab}
+}
+
+func (m *spareMem) Reallocate(size uint64) []byte {
+	if size > uint64(len(m.slab)) {
+		return nil
+	}
+	for i := m.size; i < size; i++ {
+		m.slab[i] = 0
+	}
+	if size > m.size {
+		m.size = size
+	}
+	return m.slab[:size]
+}
+
+func (m *spareMem) Free() {}
